@@ -5,6 +5,7 @@ import (
 	"go/ast"
 	"go/token"
 	"go/types"
+	"sort"
 	"strings"
 
 	"jsverif/internal/prog"
@@ -21,6 +22,7 @@ func propC04(c *Ctx) {
 	c.rulePseudoTotal()
 	c.ruleFormatFollowsNotation()
 	c.ruleKeyKind()
+	c.ruleLazyErrors()
 	c.ruleRegexChecked()
 	c.rulePathVarTypes()
 	c.ruleDepCalls("C04-DEP-CALLS")
@@ -608,5 +610,61 @@ func (c *Ctx) ruleKeyKind() {
 	}
 	if n == 0 {
 		r.Undecided("C04-KEY-KIND", "sites", "the allOf inheritance compares no keys: the matcher no longer recognises how own and inherited properties are told apart", "")
+	}
+}
+
+// ruleLazyErrors lists, as observations, the errors that the lazily compiled exchange content can produce: whatever is
+// returned as a fresh error by the code that runs under the Once of ExchangeJSightSchema.Compile is an error that a
+// project meets at its first serialisation, after it was accepted. Each one has to be shadowed by a check made while
+// the catalog is built (by the schema library or by the module); the list is what a reviewer has to go through.
+func (c *Ctx) ruleLazyErrors() {
+	r := c.R
+	r.Rule("C04-LAZY-ERRORS", "observation: the fresh errors (fmt.Errorf / errors.New) returned by the functions that run under the Once of the exchange schema's Compile (package catalog, reachable from the Do closure): each is an error of an already accepted project unless a build-time check shadows it (F32 was one that nothing shadowed)", 1)
+	n := 0
+	for _, oi := range c.onceInfos() {
+		var roots []*Fn
+		for fn := range oi.inside {
+			if g := c.fnOf(fn); g != nil {
+				roots = append(roots, g)
+			}
+		}
+		sort.Slice(roots, func(i, j int) bool { return roots[i].Name() < roots[j].Name() })
+		seen := map[*types.Func]bool{}
+		for _, rt := range roots {
+			for _, g := range c.reachableInPkg(rt) {
+				if seen[g.Obj] {
+					continue
+				}
+				seen[g.Obj] = true
+				k := 0
+				ast.Inspect(g.Decl.Body, func(nd ast.Node) bool {
+					ret, ok := nd.(*ast.ReturnStmt)
+					if !ok {
+						return true
+					}
+					for _, e := range ret.Results {
+						call, ok := ast.Unparen(e).(*ast.CallExpr)
+						if !ok {
+							continue
+						}
+						cal := callee(g.Pkg, call)
+						if cal == nil || cal.Pkg() == nil || !((cal.Pkg().Path() == "fmt" && cal.Name() == "Errorf") || (cal.Pkg().Path() == "errors" && cal.Name() == "New")) {
+							continue
+						}
+						k++
+						n++
+						msg := ""
+						if len(call.Args) > 0 {
+							msg = exprString(call.Args[0])
+						}
+						r.Observe("C04-LAZY-ERRORS", fmt.Sprintf("%s | %s #%d", g.Name(), msg, k), "can only be raised at the first serialisation (under "+oi.owner.Obj().Name()+"."+oi.field.Name()+")", c.pos(ret.Pos()))
+					}
+					return true
+				})
+			}
+		}
+	}
+	if n == 0 {
+		r.Ok("C04-LAZY-ERRORS", "library", "the once-only code returns no fresh error", "")
 	}
 }
